@@ -24,6 +24,7 @@ OK_C14 == "C14" \notin bad
 OK_C17 == "C17" \notin bad
 OK_C18 == bad \cap {"C04", "C09", "OTH", "C18"} = {}      \* containment under allocation failure: no hang, callbacks consistent, others
                                                            \* untouched, and the exchange ends as predicted, as before it, or purged with a reset due
+OK_STUB == "STUB" \notin bad      \* the socket layer keeps the promises the manager model relies on (checked by C15)
 OK_ALL == bad = {}
 KfReport == (l = Len(JTrace) + 1 /\ c.kf # {}) => PrintT(<<"KF-USED", c.kf>>)
 TraceAccepted == TLCGet("stats").diameter - 1 = Len(JTrace)
